@@ -855,6 +855,232 @@ func (g *c12) resolvers(n int) {
 	}
 }
 
+// ---------- (f) field paths from outside ----------
+
+// The dot-separated field path handed to the resolvers is caller data as well (the field name of a proof request, the
+// paths of a serialization attribute). The family: the well-formed paths of a generated schema / document, the same with
+// separators added in front, at the end or doubled, paths made of separators only (the empty string among them), paths
+// with an index, a keyword, an unknown or odd term in the place of a term, and free mixtures of all of these with empty
+// segments. Every resolver answers each of them with a path / type or an error; hashing a path that was returned, and
+// asking the merklizer about it, returns as well (an error is a fine answer).
+var oddSegments = []string{"0", "1", "7", "007", "4294967296", "99999999999999999999", "-1", "+1", "1e3", "@id", "@type", "@context", "@graph", "id", "type",
+	"nope", " ", "a b", "é", "\x00", "ex:x", "xsd", "https://example.com/vocab/x", "_:b0"}
+
+func ctxPathsOf(tds []*TypeDef) []string {
+	var out []string
+	for _, td := range tds {
+		out = append(out, td.Name)
+		for _, t := range td.Terms {
+			out = append(out, td.Name+"."+t.Name)
+			if t.Scoped && t.Child != nil {
+				for _, ct := range t.Child.Terms {
+					out = append(out, td.Name+"."+t.Name+"."+ct.Name)
+				}
+			}
+		}
+	}
+	return out
+}
+
+func docPathsOf(nd *ANode, pre string, depth int, out *[]string) {
+	if nd == nil || depth > 4 {
+		return
+	}
+	for _, f := range nd.Fields {
+		p := pre + f.Term.Name
+		*out = append(*out, p)
+		for i, v := range f.Vals {
+			if i > 1 {
+				break
+			}
+			*out = append(*out, fmt.Sprintf("%s.%d", p, i))
+			if v.Node != nil {
+				docPathsOf(v.Node, p+".", depth+1, out)
+				docPathsOf(v.Node, fmt.Sprintf("%s.%d.", p, i), depth+1, out)
+			}
+		}
+	}
+}
+
+// fieldPath draws one path of the family; the second result names the shape
+func (g *c12) fieldPath(good, vocab []string) (string, string) {
+	r := g.r
+	seg := func() string {
+		switch x := r.Intn(100); {
+		case x < 30:
+			return ""
+		case x < 70 && len(vocab) > 0:
+			return r.Pick(vocab)
+		default:
+			return r.Pick(oddSegments)
+		}
+	}
+	base := ""
+	if len(good) > 0 {
+		base = r.Pick(good)
+	}
+	switch r.Intn(6) {
+	case 0:
+		return strings.Repeat(".", r.Intn(7)), "separators-only"
+	case 1:
+		// separators added to a well-formed path: in front, at the end, doubled inside (one to three of them)
+		parts := strings.Split(base, ".")
+		for k := 1 + r.Intn(3); k > 0; k-- {
+			at := r.Intn(len(parts) + 1)
+			parts = append(parts[:at], append([]string{""}, parts[at:]...)...)
+		}
+		return strings.Join(parts, "."), "separators-added"
+	case 2:
+		parts := strings.Split(base, ".")
+		parts[r.Intn(len(parts))] = r.Pick(oddSegments)
+		return strings.Join(parts, "."), "term-replaced"
+	case 3:
+		parts := strings.Split(base, ".")
+		return strings.Join(parts[:r.Intn(len(parts)+1)], "."), "prefix"
+	case 4:
+		return base, "well-formed"
+	default:
+		var parts []string
+		for k := 1 + r.Intn(5); k > 0; k-- {
+			parts = append(parts, seg())
+		}
+		return strings.Join(parts, "."), "mixture"
+	}
+}
+
+func (g *c12) fieldPaths(n int) {
+	r := g.r
+	for round := 0; round < n; round++ {
+		dg := NewDocGen(r, 1+r.Intn(2))
+		dg.noGraph = r.Bool()
+		root := dg.node(dg.sch.Root, 0, r.Bool())
+		pres := plainPresentation(r)
+		pres.ctxMode = r.Intn(3)
+		doc := dg.Render(root, pres)
+		ctxDoc := dg.ContextDoc()
+		loader := &mapLoader{docs: map[string][]byte{dg.sch.URL: ctxDoc}}
+		opts := merklize.Options{DocumentLoader: loader}
+		var tds []*TypeDef
+		dg.allTypes(dg.sch.Root, &tds)
+		var vocab, typeNames []string
+		for _, td := range tds {
+			vocab = append(vocab, td.Name)
+			typeNames = append(typeNames, td.Name)
+			for _, t := range td.Terms {
+				vocab = append(vocab, t.Name)
+			}
+		}
+		ctxGood := ctxPathsOf(tds)
+		var docGood []string
+		docPathsOf(root, "", 0, &docGood)
+		if len(docGood) == 0 {
+			docGood = []string{"id"}
+		}
+		mz, mzErr := merklize.MerklizeJSONLD(context.Background(), bytes.NewReader(doc), merklize.WithDocumentLoader(loader))
+		usable := func(p merklize.Path) (any, error) {
+			k, err := p.MtEntry()
+			if err != nil {
+				return nil, err
+			}
+			return k, nil
+		}
+		ctxS, docS := trunc(string(ctxDoc), 3000), trunc(string(doc), 3000)
+		for i := 0; i < 6; i++ {
+			// ---- paths into a context ----
+			path, shape := g.fieldPath(ctxGood, vocab)
+			tg := []string{"resolver", "field-path-family", "pathshape:" + shape}
+			pkg := r.Bool() // the package-level functions and the methods of Options are both entry points
+			g.probe("path-ctx-type", J{"ctx": ctxS, "path": path, "pkg": pkg}, tg, func() (any, error) {
+				var dt string
+				var err error
+				if pkg {
+					dt, err = merklize.TypeFromContext(ctxDoc, path)
+				} else {
+					dt, err = opts.TypeFromContext(ctxDoc, path)
+				}
+				if err != nil {
+					return nil, err
+				}
+				return "type:" + dt, nil
+			})
+			g.probe("path-ctx-path", J{"ctx": ctxS, "path": path, "pkg": pkg}, tg, func() (any, error) {
+				var p merklize.Path
+				var err error
+				if pkg {
+					p, err = merklize.NewPathFromContext(ctxDoc, path)
+				} else {
+					p, err = opts.PathFromContext(ctxDoc, path)
+				}
+				if err != nil {
+					return nil, err
+				}
+				return usable(p)
+			})
+			g.probe("path-ctx-type-id", J{"ctx": ctxS, "type": path, "pkg": pkg}, tg, func() (any, error) {
+				var id string
+				var err error
+				if pkg {
+					id, err = merklize.TypeIDFromContext(ctxDoc, path)
+				} else {
+					id, err = opts.TypeIDFromContext(ctxDoc, path)
+				}
+				if err != nil {
+					return nil, err
+				}
+				return "id:" + id, nil
+			})
+			// type and field given separately: either of them (or both) from the family
+			ctxType, field := r.Pick(typeNames), path
+			if strings.HasPrefix(path, ctxType+".") && r.Bool() {
+				field = strings.TrimPrefix(path, ctxType+".")
+			}
+			switch r.Intn(4) {
+			case 0:
+				ctxType, _ = g.fieldPath(ctxGood, vocab)
+			case 1:
+				ctxType, field = path, r.Pick(vocab)
+			}
+			g.probe("path-ctx-field", J{"ctx": ctxS, "type": ctxType, "field": field, "pkg": pkg}, tg, func() (any, error) {
+				var p merklize.Path
+				var err error
+				if pkg {
+					p, err = merklize.NewFieldPathFromContext(ctxDoc, ctxType, field)
+				} else {
+					p, err = opts.FieldPathFromContext(ctxDoc, ctxType, field)
+				}
+				if err != nil {
+					return nil, err
+				}
+				return usable(p)
+			})
+			// ---- paths into a document ----
+			dpath, dshape := g.fieldPath(docGood, vocab)
+			dtg := []string{"resolver", "field-path-family", "pathshape:" + dshape}
+			g.probe("path-doc-path", J{"doc": docS, "path": dpath}, dtg, func() (any, error) {
+				p, err := opts.NewPathFromDocument(doc, dpath)
+				if err != nil {
+					return nil, err
+				}
+				return usable(p)
+			})
+			if mzErr == nil && mz != nil {
+				g.probe("path-merklizer", J{"doc": docS, "path": dpath}, dtg, func() (any, error) {
+					p, err := mz.ResolveDocPath(dpath)
+					if err != nil {
+						return nil, err
+					}
+					// a path the merklizer resolved is one it can be asked about
+					_, _, _ = mz.Proof(context.Background(), p)
+					_, _ = mz.RawValue(p)
+					_, _ = mz.JSONLDType(p)
+					_, _ = mz.Entry(p)
+					return usable(p)
+				})
+			}
+		}
+	}
+}
+
 func genC12(out *Out, r *Rng, tier string, n int, shard int) {
 	g := &c12{out: out, r: r}
 	g.resolvers(3 * n)
@@ -870,6 +1096,8 @@ func genC12(out *Out, r *Rng, tier string, n int, shard int) {
 	for i := 0; i < 6*n; i++ {
 		emitDataset(out, r, hPoseidon())
 	}
+	// last, so that the cases above are the ones the same seed gave before this family existed
+	g.fieldPaths(4 * n)
 }
 
 func init() { gens["C12"] = genC12 }
